@@ -25,6 +25,10 @@ func (exec *Executor) execMethodNode(
 	case ast.MethodNumber:
 		return exec.executeNumberMethod(ctx, node, value, found, unwrap, node)
 	case ast.MethodAbs:
+		if isMinInt64(value) {
+			// |-2^63| does not fit in an int64.
+			return exec.executeNextItem(ctx, node, node.Next(), -float64(math.MinInt64), found)
+		}
 		return exec.executeNumericItemMethod(
 			ctx, node, value, unwrap,
 			intAbs, math.Abs, found,
@@ -275,7 +279,7 @@ func (exec *Executor) execMethodBigInt(
 	case int64:
 		bigInt = val
 	case float64:
-		if val > math.MaxInt64 || val < math.MinInt64 || math.IsInf(val, 0) || math.IsNaN(val) {
+		if val >= math.MaxInt64 || val < math.MinInt64 || math.IsInf(val, 0) || math.IsNaN(val) {
 			return exec.returnVerboseError(fmt.Errorf(
 				`%w: argument "%v" of jsonpath item method %v is invalid for type %v`,
 				ErrVerbose, val, node.Name(), "bigint",
@@ -288,7 +292,7 @@ func (exec *Executor) execMethodBigInt(
 		if err != nil {
 			var f float64
 			f, err = val.Float64()
-			if err != nil || f > math.MaxInt64 || f < math.MinInt64 || math.IsInf(f, 0) || math.IsNaN(f) {
+			if err != nil || f >= math.MaxInt64 || f < math.MinInt64 || math.IsInf(f, 0) || math.IsNaN(f) {
 				return exec.returnVerboseError(fmt.Errorf(
 					`%w: argument "%v" of jsonpath item method %v is invalid for type %v`,
 					ErrVerbose, val, node.Name(), "bigint",
@@ -665,6 +669,20 @@ func roundDecimal(num float64, precision, scale int) (float64, bool) {
 		return 0, false
 	}
 	return rounded, true
+}
+
+// isMinInt64 returns true if value is the integer -2^63, the one int64 whose
+// absolute value is not an int64.
+func isMinInt64(value any) bool {
+	switch val := value.(type) {
+	case int64:
+		return val == math.MinInt64
+	case json.Number:
+		integer, err := val.Int64()
+		return err == nil && integer == math.MinInt64
+	default:
+		return false
+	}
 }
 
 // intCallback defines a callback to carry out an operation on an int64.
